@@ -10,6 +10,9 @@ import (
 
 func tokenString(s string) string {
 	s = strings.Trim(s, " \t\n\r")
+	if len(s) < 2 {
+		return s
+	}
 	lastChar := len(s) -1
 	if s[0] == char_doublequote && s[lastChar] == char_doublequote {
 		return s[1:lastChar]
@@ -57,7 +60,7 @@ func chkErr2(l *lexer, keyword string, extension *meta.Extension) bool {
 }
 
 func trimQuotes(s string) string {
-    if s[0] == '"' {
+    if len(s) >= 2 && s[0] == '"' {
         return s[1:len(s)-1]
     }
     return s
